@@ -333,14 +333,18 @@ class Parametrized(Box):
         else:
             return Tensor.np
 
+    def rebuild(self, data):
+        """ The same box with other data. """
+        return type(self)(data)
+
     def subs(self, *args):
         data = rsubs(self.data, *args)
-        return type(self)(data)
+        return self.rebuild(data)
 
     def lambdify(self, *symbols, **kwargs):
         from sympy import lambdify
         data = lambdify(symbols, self.data, dict(kwargs, modules=Tensor.np))
-        return lambda *xs: type(self)(data(*xs))
+        return lambda *xs: self.rebuild(data(*xs))
 
     @property
     def name(self):
@@ -525,6 +529,11 @@ class Scalar(Parametrized):
     @property
     def array(self):
         return [self.data]
+
+    def rebuild(self, data):
+        if type(self) is Scalar:
+            return Scalar(data, is_mixed=self.is_mixed)
+        return type(self)(data)
 
     def grad(self, var, **params):
         if var not in self.free_symbols:
